@@ -407,3 +407,85 @@ def gs_history_plan(i):
     ia = i
     ib = 3 * i + 4 + (i // 7)
     return mode, ia, ib
+
+
+# ----------------------------------------------------------------------------
+# who owns the numbers: arrays handed over / handed out, several instances side by side
+# ----------------------------------------------------------------------------
+GS_ALIAS_FORMS = ['array', 'ravel-view', 'strided', 'series', 'float32', 'list', 'tuple']
+GS_ALIAS_PATHS = ['init', 'empty-set', 'set-again', 'model']
+SCRAMBLES = ['scale', 'other-data', 'zeros']
+GS_ALIAS_ARGS = ['E', 'a1', 'a2', 'delta', 'a1vect', 'a2vect']
+GS_RESULT_ATTRS = ['a1vect', 'a2vect', 'planenormal']
+QUERY_FORMS = ['int-scalar', 'int-list', 'int-array', 'int-in-cell', 'float32', 'tuple', 'int-pos', 'empty']
+
+
+def gs_alias_plan(i):
+    """(form, path, scramble kind, surface index, first argument) of ownership case i.
+    Form cycles with period 7, path with i // 7 (all 28 pairs in 28 consecutive
+    cases), the scramble kind with period 3; the surface index i + i // 7 moves the
+    grid (period 7) against the form; the argument scrambled first rotates."""
+    return (GS_ALIAS_FORMS[i % 7], GS_ALIAS_PATHS[(i // 7) % 4], SCRAMBLES[i % 3], i + i // 7, i % len(GS_ALIAS_ARGS))
+
+
+def hand_over(values, form, slot=0, nslots=4):
+    """(argument object to hand to the code under test, writer) for a 1-D or 2-D float array.
+    ``writer(new_values)`` overwrites IN PLACE whatever the caller still owns of the
+    argument (None when the form is immutable).  The numbers handed over are
+    exactly ``values`` (float32: the caller rounds first, see promote())."""
+    v = np.array(values, float)
+    if form == 'array':
+        buf = v.copy()
+        return buf, lambda new: buf.__setitem__(Ellipsis, new)
+    if form == 'ravel-view':
+        base = v.reshape((1,) + v.shape).copy()          # the caller's table; its first row is what is handed over
+        buf = base[0]
+        return buf, lambda new: base.__setitem__(0, new)
+    if form == 'strided':
+        table = np.zeros(v.shape + (nslots,))
+        table[..., slot] = v
+        buf = table[..., slot]                            # non-contiguous view of the caller's table
+        return buf, lambda new: table.__setitem__((Ellipsis, slot), new)
+    if form == 'float32':
+        buf = v.astype(np.float32)
+        return buf, lambda new: buf.__setitem__(Ellipsis, new)
+    if form == 'list':
+        buf = v.tolist()
+
+        def write(new):
+            buf[:] = np.asarray(new, float).tolist()
+        return buf, write
+    if form == 'tuple':
+        t = v.tolist()
+        return (tuple(tuple(r) for r in t) if v.ndim == 2 else tuple(t)), None
+    raise ValueError(form)
+
+
+def promote(values, form):
+    """The float64 numbers the code under test receives when ``values`` are handed over in ``form``."""
+    v = np.array(values, float)
+    return v.astype(np.float32).astype(float) if form == 'float32' else v
+
+
+def scrambled(rng, kind, values):
+    """Other numbers of the same shape (never equal to ``values`` unless they are all zero and kind is 'zeros')."""
+    v = np.array(values, float)
+    if kind == 'scale':
+        return v * 3.0 + (1.0 if not np.any(v) else 0.0)
+    if kind == 'other-data':
+        return rng.permutation(v.ravel()).reshape(v.shape) * 1.7 + 0.31
+    if kind == 'zeros':
+        return np.zeros_like(v)
+    raise ValueError(kind)
+
+
+PN_ALIAS_PATHS = ['init', 'setter', 'solve-kw', 'model']
+PN_ALIAS_FORMS = ['array', 'strided', 'float32', 'list', 'ravel-view']
+PN_ALIAS_ARGS = ['tau', 'beta', 'alpha', 'x', 'disregistry', 'gamma-data']
+PN_RESULT_ATTRS = ['K_tensor', 'burgers', 'transform']
+
+
+def pn_alias_plan(i):
+    """(form, path, scramble kind, first argument) of Peierls-Nabarro ownership case i:
+    form period 5, path period 4 (all 20 pairs in 20 consecutive cases), kind period 3."""
+    return PN_ALIAS_FORMS[i % 5], PN_ALIAS_PATHS[i % 4], SCRAMBLES[i % 3], i % len(PN_ALIAS_ARGS)
